@@ -15,15 +15,17 @@ package selection
 //@   requires [chain] len(depChain) >= 1
 //@   modifies heap("H$S$model.Target$IsSelected"), heap("H$S$model.Alias$IsSelected")
 //@   ensures [closure] err == nil ==> (forall a model.BuildNode :: {reach(graph, a, node)} reach(graph, a, node) ==> isSel(a))
-//@   ensures [monotone] forall a model.BuildNode :: old(isSel(a)) ==> isSel(a)
-//@   ensures [only_ancestors] forall a model.BuildNode :: {reach(graph, a, node)} isNode(a) && isSel(a) && !old(isSel(a)) ==> reach(graph, a, node)
+//@   ensures [monotone] selMonotone()
+//@   ensures [only_ancestors] (forall r int :: {select(selT(), r)} select(selT(), r) && !old(select(selT(), r)) ==> reach(graph, tnode(r), node)) &&
+//@        (forall r int :: {select(selA(), r)} select(selA(), r) && !old(select(selA(), r)) ==> reach(graph, anode(r), node))
 //@   ensures [compatible_or_error] err == nil ==> (forall a model.BuildNode :: {reach(graph, a, node)} reach(graph, a, node) ==> platformOK(a))
 //@ loop #1
 //@   invariant [deps_are_edges] forall j int :: {ranged()[j]} 0 <= j && j < len(ranged()) ==> edge(graph, ranged()[j], node)
 //@   invariant [done_so_far] forall j int :: 0 <= j && j <= rangeindex ==> isSel(ranged()[j]) && platformOK(ranged()[j]) &&
 //@        (forall a model.BuildNode :: {reach(graph, a, ranged()[j])} reach(graph, a, ranged()[j]) ==> isSel(a) && platformOK(a))
-//@   invariant [monotone] forall a model.BuildNode :: old(isSel(a)) ==> isSel(a)
-//@   invariant [only_ancestors] forall a model.BuildNode :: {reach(graph, a, node)} isNode(a) && isSel(a) && !old(isSel(a)) ==> reach(graph, a, node)
+//@   invariant [monotone] selMonotone()
+//@   invariant [only_ancestors] (forall r int :: {select(selT(), r)} select(selT(), r) && !old(select(selT(), r)) ==> reach(graph, tnode(r), node)) &&
+//@        (forall r int :: {select(selA(), r)} select(selA(), r) && !old(select(selA(), r)) ==> reach(graph, anode(r), node))
 
 // ---- filters: each predicate is proved equivalent to a first-order formula over patterns and tags ------------------
 
@@ -72,23 +74,29 @@ package selection
 
 // C12 top level: after a successful selection, every newly selected node matches all filters (and the platform) or is a
 // transitive dependency of a node that does; every matching node and all its transitive dependencies are selected.
+// MATCH(n) abbreviates "n passes all filters and the platform check" in the entry state (filters never read IsSelected).
 //@ func (*Selector).SelectTargetsForBuild(s, graph) (n, skipped, err)
+//@   define MATCH(x model.BuildNode) bool = matchesFilters(s, x) && platformOK(x)
 //@   requires [abs] absEdges(graph) && edgesAreNodes(graph) && nodesWF(graph)
 //@   modifies heap("H$S$model.Target$IsSelected"), heap("H$S$model.Alias$IsSelected")
-//@   ensures [only_matches_and_their_dependencies] err == nil ==> (forall a model.BuildNode :: isNode(a) && isSel(a) && !old(isSel(a)) ==>
-//@        (matchesFilters(s, a) && platformOK(a)) ||
-//@        (exists k label.TargetLabel :: has(graph.nodes, k) && matchesFilters(s, nodeAt(graph, k)) && platformOK(nodeAt(graph, k)) && reach(graph, a, nodeAt(graph, k))))
-//@   ensures [matches_selected] err == nil ==> (forall k label.TargetLabel :: {has(graph.nodes, k)} has(graph.nodes, k) && matchesFilters(s, nodeAt(graph, k)) && platformOK(nodeAt(graph, k)) ==> isSel(nodeAt(graph, k)))
+//@   ensures [nothing_else_selected] err == nil ==>
+//@        (forall r int :: {select(selT(), r)} select(selT(), r) && !old(select(selT(), r)) ==> MATCH(tnode(r)) ||
+//@            (exists k label.TargetLabel :: {has(graph.nodes, k)} has(graph.nodes, k) && MATCH(nodeAt(graph, k)) && reach(graph, tnode(r), nodeAt(graph, k)))) &&
+//@        (forall r int :: {select(selA(), r)} select(selA(), r) && !old(select(selA(), r)) ==> MATCH(anode(r)) ||
+//@            (exists k label.TargetLabel :: {has(graph.nodes, k)} has(graph.nodes, k) && MATCH(nodeAt(graph, k)) && reach(graph, anode(r), nodeAt(graph, k))))
+//@   ensures [matches_selected] err == nil ==> (forall k label.TargetLabel :: {has(graph.nodes, k)} has(graph.nodes, k) && MATCH(nodeAt(graph, k)) ==> isSel(nodeAt(graph, k)))
 //@   ensures [dependencies_of_matches_selected] err == nil ==> (forall k label.TargetLabel, a model.BuildNode :: {reach(graph, a, nodeAt(graph, k))}
-//@        has(graph.nodes, k) && matchesFilters(s, nodeAt(graph, k)) && platformOK(nodeAt(graph, k)) && reach(graph, a, nodeAt(graph, k)) ==> isSel(a) && platformOK(a))
+//@        has(graph.nodes, k) && MATCH(nodeAt(graph, k)) && reach(graph, a, nodeAt(graph, k)) ==> isSel(a) && platformOK(a))
 //@ loop #1
-//@   invariant [only_matches_and_their_dependencies] forall a model.BuildNode :: isNode(a) && isSel(a) && !old(isSel(a)) ==>
-//@        (matchesFilters(s, a) && platformOK(a)) ||
-//@        (exists k label.TargetLabel :: has(graph.nodes, k) && matchesFilters(s, nodeAt(graph, k)) && platformOK(nodeAt(graph, k)) && reach(graph, a, nodeAt(graph, k)))
-//@   invariant [seen_matches_selected] forall k label.TargetLabel :: {seen(k)} seen(k) && has(graph.nodes, k) && matchesFilters(s, nodeAt(graph, k)) && platformOK(nodeAt(graph, k)) ==> isSel(nodeAt(graph, k))
+//@   invariant [nothing_else_selected]
+//@        (forall r int :: {select(selT(), r)} select(selT(), r) && !old(select(selT(), r)) ==> MATCH(tnode(r)) ||
+//@            (exists k label.TargetLabel :: {has(graph.nodes, k)} has(graph.nodes, k) && MATCH(nodeAt(graph, k)) && reach(graph, tnode(r), nodeAt(graph, k)))) &&
+//@        (forall r int :: {select(selA(), r)} select(selA(), r) && !old(select(selA(), r)) ==> MATCH(anode(r)) ||
+//@            (exists k label.TargetLabel :: {has(graph.nodes, k)} has(graph.nodes, k) && MATCH(nodeAt(graph, k)) && reach(graph, anode(r), nodeAt(graph, k))))
+//@   invariant [seen_matches_selected] forall k label.TargetLabel :: {seen(k)} seen(k) && has(graph.nodes, k) && MATCH(nodeAt(graph, k)) ==> isSel(nodeAt(graph, k))
 //@   invariant [seen_dependencies_selected] forall k label.TargetLabel, a model.BuildNode :: {reach(graph, a, nodeAt(graph, k))}
-//@        seen(k) && has(graph.nodes, k) && matchesFilters(s, nodeAt(graph, k)) && platformOK(nodeAt(graph, k)) && reach(graph, a, nodeAt(graph, k)) ==> isSel(a) && platformOK(a)
-//@   invariant [monotone] forall a model.BuildNode :: old(isSel(a)) ==> isSel(a)
+//@        seen(k) && has(graph.nodes, k) && MATCH(nodeAt(graph, k)) && reach(graph, a, nodeAt(graph, k)) ==> isSel(a) && platformOK(a)
+//@   invariant [monotone] selMonotone()
 
 // query selection (grog list etc.): exactly the filter and platform matches
 //@ func (*Selector).SelectTargets(s, graph) ()
